@@ -202,6 +202,7 @@ SPELLINGS = {
     "title": ("{T}", "{T}", "s", "s", "title", False, False, None),
     "on_rev": ("{T}", "{T}", "s", "s", "upper", False, True, None),
     "set_qual": ("{T}", "{T}", "s", "s", "upper", True, False, None),
+    "ident_case": ("{T}", "{TU}", "s", "S", "upper", False, False, None),  # unquoted identifiers fold: T.k is t.k
     "alias_src": ("{T}", "{T}", "s {AS} src", "src", "upper", False, False, None),
     "alias_src_noas": ("{T}", "{T}", "s src", "src", "upper", False, False, None),
     "alias_tgt": ("{T} {AS} tgt", "tgt", "s", "s", "upper", False, False, None),
@@ -223,7 +224,7 @@ SPELLINGS = {
 }
 SPELLING_IDS = tuple(SPELLINGS)
 QUICK_SPELLINGS = (
-    "plain", "lower", "set_qual", "alias_src", "alias_tgt", "alias_both_noas", "subq", "subq_filter", "db_q",
+    "plain", "lower", "set_qual", "ident_case", "alias_src", "alias_tgt", "alias_both_noas", "subq", "subq_filter", "db_q",
     "db_q_full", "db_q_tgt", "db_q_tgt_full", "db_q_src",
 )  # fmt: skip
 
@@ -234,7 +235,7 @@ def render(spec, spelling, tname="t"):
     words = {w: kw(w) for w in ("AS", "SELECT", "FROM", "WHERE")}
     tgt = tgt.format(T=tname, **words)
     src = src.format(T=tname, **words)
-    return M.sql_merge(tgt, src, tq.format(T=tname), sq, ON_REV if rev else ON, clauses_ast(spec), kw=kw, set_qualified=setq)
+    return M.sql_merge(tgt, src, tq.format(T=tname, TU=tname.upper()), sq, ON_REV if rev else ON, clauses_ast(spec), kw=kw, set_qualified=setq)
 
 
 # ---- input-shape predicates used by the classifier (functions of the case only) ---------------------------------------
@@ -546,7 +547,8 @@ def execute_step(scenario, tname, sql):
 
 # ---- oracle -------------------------------------------------------------------------------------------------------------
 def _kinds_sig(spec):
-    return "".join(c[0] for c in spec)
+    """the clause kinds present (not their order): keeps the number of `unexplained` classes of one breakage small"""
+    return "".join(sorted({c[0] for c in spec}))
 
 
 def bare_or_leak(pre, eff_src, tcols, ast):
@@ -636,15 +638,16 @@ def judge(scenario, tname, spec, spelling, srows, o):
     if got[0] == "ok" and not expect_unchanged and scenario != "tx_commit":
         alt = M.merge_clausewise_rejoin(pre, eff_src, tcols, SCOLS, ON, ast)
         alt_rows = None if alt is None else _norm(alt)
-        if leak_rows:
+        rejoin_applies = alt_rows != exp_rows
+        if leak_rows and not rejoin_applies:
             memb.append(("C12.target_rows", BARE_OR_CLASS, o["post_t"] != exp_rows))
-        elif alt_rows != exp_rows and not leak_counts:
+        elif rejoin_applies and not leak_rows and not leak_counts:
             memb.append(("C12.target_rows", "effect=clausewise_rejoin_on_key", o["post_t"] != exp_rows))
         if o["post_t"] != exp_rows:
-            if leak_rows:
-                cls = BARE_OR_CLASS
-            elif alt_rows is not None and alt_rows != exp_rows and o["post_t"] == alt_rows:
+            if rejoin_applies and alt_rows is not None and o["post_t"] == alt_rows:
                 cls = "effect=clausewise_rejoin_on_key"
+            elif leak_rows:
+                cls = BARE_OR_CLASS
             else:
                 cls = f"unexplained:spelling={spelling},clauses={_kinds_sig(spec)}"
             viol.append(("C12.target_rows", cls, {"before": o["pre_t"], "expected": exp_rows, "got": o["post_t"]}))
@@ -663,7 +666,7 @@ def judge(scenario, tname, spec, spelling, srows, o):
         else:
             row = status[0]
             if sorted(row) != exp_cols:
-                viol.append(("C12.status_columns", f"clauses={''.join(sorted(set(_kinds_sig(spec))))}", {"expected": exp_cols, "got": sorted(row)}))
+                viol.append(("C12.status_columns", f"clauses={_kinds_sig(spec)}", {"expected": exp_cols, "got": sorted(row)}))
             else:
                 expv = {M.KIND_COLUMN[k]: n for k, n in ref["counts"].items()}
                 bad = {c: row[c] for c in row if row[c] != expv[c] or type(row[c]) is not int}
@@ -681,9 +684,10 @@ def judge(scenario, tname, spec, spelling, srows, o):
                     else:
                         cls = f"unexplained:clauses={_kinds_sig(spec)},spelling={spelling}"
                     viol.append(("C12.status_counts", cls, {"expected": expv, "got": row}))
-            if total != 1:
+            # (where the counts themselves are off for the reason above, rowcount is not judged a second time)
+            if total != 1 and not leak_counts:
                 memb.append(("C12.rowcount", "rowcount=number_of_status_rows", rc != total))
-            if rc != total:
+            if rc != total and not leak_counts:
                 cls = "rowcount=number_of_status_rows" if rc == len(status) else "unexplained"
                 viol.append(("C12.rowcount", cls, {"expected": total, "got": rc, "status": status}))
 
@@ -765,7 +769,7 @@ def run(ctx: core.Ctx):
         "the plain spelling; + spellings x kind lists x 4 contents; + SET forms x INSERT forms x contents; + NOT NULL "
         "target (statement must fail as a whole); + follow-up observations of the session (helper table, user table of "
         "the same name); + MERGE inside BEGIN..ROLLBACK/COMMIT; + two merges in one session. quick = 16 contents, "
-        "rotating conditions, 13 spellings. non-trivial = (pre-state, source, clauses, spelling) for which the "
+        "rotating conditions, 14 spellings. non-trivial = (pre-state, source, clauses, spelling) for which the "
         "reference affects >= 1 row or demands an error"
     )
     ctx.assumptions = [
